@@ -261,22 +261,24 @@ func (l *listener) Addr() net.Addr { return fakeAddr{} }
 // ---------------------------------------------------------------------------------------------
 
 type conn struct {
-	id       int
-	cli      *net.UnixConn
-	br       *bufio.Reader
-	srv      net.Conn // kept reachable: engine.conns stores the pointer as bytes (no GC reference)
-	srvIno   string
-	state    string // http | partial | ws
-	half     string // A: blocking reader goroutine, B: poller, T: transferred from A to the poller
-	open     bool   // open from the harness's point of view (neither side has closed)
-	cliOpen  bool   // the harness still holds its descriptor
-	nreq     int
-	partTag  string
-	nmsg     int
-	rxBytes  int // response bytes received on this connection
-	isFill   bool
-	upgraded bool   // the peer read the 101
-	endedBy  string // "peer": the harness closed first; "server": the peer read the end of the stream
+	id         int
+	cli        *net.UnixConn
+	br         *bufio.Reader
+	srv        net.Conn // kept reachable: engine.conns stores the pointer as bytes (no GC reference)
+	srvIno     string
+	state      string // http | partial | ws
+	half       string // A: blocking reader goroutine, B: poller, T: transferred from A to the poller
+	open       bool   // open from the harness's point of view (neither side has closed)
+	cliOpen    bool   // the harness still holds its descriptor
+	nreq       int
+	partTag    string
+	nmsg       int
+	rxBytes    int // response bytes received on this connection
+	isFill     bool
+	upgraded   bool   // the peer read the 101
+	halfClosed bool   // the peer shut down its sending direction (the server is closing or has closed)
+	noted      bool   // its unexpected end was reported once
+	endedBy    string // "peer": the harness closed first; "server": the peer read the end of the stream
 }
 
 type world struct {
@@ -302,6 +304,10 @@ type world struct {
 
 	stopPanic string
 	t0        time.Time
+
+	// connections the HARNESS closed since the last point at which the engine's counts agreed with
+	// the peers' view: the engine may not have noticed them yet
+	pendingClosed, pendingClosedA int
 
 	cb    map[int]*cbLog // WebSocket callback logs per connection id (under mu)
 	cbSeq int
@@ -587,54 +593,169 @@ func (w *world) openKind(i int) string {
 	return ""
 }
 
-// expected numbers at a quiet point
-func (w *world) wantOnline() int {
-	n := 0
-	for _, c := range w.all {
-		if c.open {
-			n++
-		}
+// peek asks the kernel what the peer of c could read right now, without consuming anything:
+// "open" (nothing to read, stream not ended), "end" (end of stream or reset: the server closed),
+// "data" (unread bytes: whether the stream has ended behind them cannot be seen).
+func peek(c *conn) string {
+	if !c.cliOpen {
+		return "gone"
 	}
-	return n
+	if c.br.Buffered() > 0 {
+		return "data"
+	}
+	rc, err := c.cli.SyscallConn()
+	if err != nil {
+		return "end"
+	}
+	st := "open"
+	var b [1]byte
+	_ = rc.Control(func(fd uintptr) {
+		n, _, e := syscall.Recvfrom(int(fd), b[:], syscall.MSG_PEEK|syscall.MSG_DONTWAIT)
+		switch {
+		case e == syscall.EAGAIN || e == syscall.EINTR:
+			st = "open"
+		case e != nil:
+			st = "end"
+		case n == 0:
+			st = "end"
+		default:
+			st = "data"
+		}
+	})
+	return st
 }
 
-func (w *world) wantOnlineA() int {
-	n := 0
-	for _, c := range w.all {
-		if c.open && c.half == "A" {
-			n++
-		}
-	}
-	return n
+// view is what the peers can see at one instant: must = connections that are verifiably open
+// (the harness holds them, has not shut anything down, and the kernel says the stream has not
+// ended), unc = connections whose state the peer cannot decide (unread data in front of a possible
+// end of stream; a half-closed connection the server is closing). The A fields count the
+// connections served by the blocking half only.
+type view struct {
+	must, unc, mustA, uncA int
+	desc                   string
 }
 
-// quiet checks the state invariants once the history is quiet: the engine's connection count
-// equals the number of connections that are open from the harness's point of view (C18: this is
-// the bookkeeping Shutdown's wait loop relies on); in IOModMixed the mux's count of connections
-// served by the blocking half equals the harness's (C10: dispatch between the halves).
+func (w *world) observe() view {
+	var v view
+	var parts []string
+	for _, c := range w.all {
+		st := peek(c)
+		parts = append(parts, fmt.Sprintf("c%d:%s/%s", c.id, c.half, st))
+		if st == "gone" {
+			continue
+		}
+		a := 0
+		if c.half == "A" {
+			a = 1
+		}
+		switch {
+		case st == "end":
+			// the server closed it; its removal from the tables follows on a running goroutine
+			if c.open && !c.halfClosed && !c.noted {
+				c.noted = true
+				w.obs("other", "connection-closed-by-server-at-a-quiet-point"+qual(c), "c%d (half %s, state %s): the peer had neither closed nor asked for a close, yet the kernel reports the end of its stream", c.id, c.half, c.state)
+			}
+			c.open = false
+			if c.endedBy == "" {
+				c.endedBy = "server"
+			}
+		case st == "data" || c.halfClosed:
+			v.unc++
+			v.uncA += a
+		default:
+			v.must++
+			v.mustA += a
+		}
+	}
+	v.desc = strings.Join(parts, " ")
+	return v
+}
+
+func (w *world) allParked() bool {
+	for _, g := range w.gbase.Extra() {
+		if !Blocked(g) {
+			return false
+		}
+	}
+	return true
+}
+
+// quiet is the state invariant of a quiet history: engine.Online() (C18: the bookkeeping
+// Shutdown's wait loop relies on) and, in IOModMixed, the listener mux's count of connections
+// served by the blocking half (C10: dispatch between the halves) agree with what the peers see.
+//
+// Nothing here is computed once and then waited for. Every poll iteration takes FRESH observations
+// of every peer (peek) and fresh counter values and asks whether  must <= count <= must + unc.
+// A disagreement is reported only when it is STABLE: the same numbers in 5 consecutive samples,
+// spread over the observation window, in each of which every engine goroutine is parked (pollers
+// in epoll_wait count as parked). The one thing parked goroutines can still owe is the delivery of
+// a kernel event: while connections that the HARNESS itself closed since the last agreement may
+// still be counted ("more" with pendingClosed > 0) the verdict waits for the generous cap instead.
 func (w *world) quiet(after string) {
 	if w.dead {
 		return
 	}
-	want := w.wantOnline()
-	if cp := w.capFor("c18", w.caps.Quiet); !w.caps.NoReclaim && !WaitFor(cp, func() bool { return w.engine.VerifOnline() == want }) {
-		got := w.engine.VerifOnline()
-		dir := "more"
-		if got < want {
-			dir = "fewer"
+	lm := w.engine.VerifListenerMux()
+	start := time.Now()
+	streak, last, counted := 0, "", time.Now()
+	d := 50 * time.Microsecond
+	for {
+		v := w.observe()
+		on, onA := w.engine.VerifOnline(), 0
+		ok18 := w.caps.NoReclaim || (v.must <= on && on <= v.must+v.unc)
+		ok10 := true
+		if lm != nil {
+			onA = lm.VerifOnlineA()
+			ok10 = v.mustA <= onA && onA <= v.mustA+v.uncA
 		}
-		w.expired("c18")
-		w.obs("c18", "online-count-"+dir+"-than-open-connections",
-			"after %s the history is quiet and %d connection(s) are open from the peers' point of view, but engine.Online() stays %d for %v (stale or missing entries in engine.conns: Shutdown waits for this count to reach zero)",
-			after, want, got, cp)
-	}
-	if lm := w.engine.VerifListenerMux(); lm != nil {
-		wa := w.wantOnlineA()
-		if cp := w.capFor("c10", w.caps.Quiet); !WaitFor(cp, func() bool { return lm.VerifOnlineA() == wa }) {
-			w.expired("c10")
-			w.obs("c10", "mixed-blocking-half-count-wrong",
-				"after %s %d open connection(s) are served by the blocking half, but the listener mux counts %d for %v (the `decrease` accounting decides which half serves the next connection)",
-				after, wa, lm.VerifOnlineA(), cp)
+		if ok18 && ok10 {
+			w.pendingClosed, w.pendingClosedA = 0, 0
+			return
+		}
+		// which of the disagreements can be decided by stability alone?
+		fast18 := ok18 || on < v.must || w.pendingClosed == 0
+		fast10 := ok10 || onA < v.mustA || w.pendingClosedA == 0
+		key := fmt.Sprint(on, v.must, v.unc, onA, v.mustA, v.uncA)
+		switch {
+		case key != last || !w.allParked():
+			streak, counted = 0, time.Now()
+		case time.Since(counted) >= w.window()/4:
+			streak, counted = streak+1, time.Now()
+		}
+		last = key
+		el := time.Since(start)
+		expired := (ok18 || el > w.capFor("c18", w.caps.Quiet)) && (ok10 || el > w.capFor("c10", w.caps.Quiet))
+		if (streak >= 5 && fast18 && fast10) || expired {
+			how := "in 5 consecutive samples with every engine goroutine parked"
+			if expired {
+				how = fmt.Sprintf("for %v", time.Since(start).Round(time.Second))
+			}
+			if !ok18 {
+				dir := "more"
+				if on < v.must {
+					dir = "fewer"
+				}
+				if expired {
+					w.expired("c18")
+				}
+				w.obs("c18", "online-count-"+dir+"-than-open-connections",
+					"after %s: engine.Online() = %d, but the peers see %d connection(s) verifiably open and %d undecidable (fresh observations, %s; per connection id:half/peer-state: %s; closed by the harness and possibly not yet noticed: %d): stale or missing entries in engine.conns, the count Shutdown waits on",
+					after, on, v.must, v.unc, how, v.desc, w.pendingClosed)
+			}
+			if !ok10 {
+				if expired {
+					w.expired("c10")
+				}
+				w.obs("c10", "mixed-blocking-half-count-wrong",
+					"after %s: the listener mux counts %d connection(s) in the blocking half, the peers see %d verifiably open there and %d undecidable (fresh observations, %s; %s): the `decrease` accounting decides which half serves the next connection",
+					after, onA, v.mustA, v.uncA, how, v.desc)
+			}
+			w.pendingClosed, w.pendingClosedA = 0, 0
+			return
+		}
+		Nap(d)
+		if d < 2*time.Millisecond {
+			d = d * 3 / 2
 		}
 	}
 }
@@ -653,20 +774,29 @@ func (w *world) open(id int, filler bool) {
 	if !filler {
 		w.conns[id] = c
 	}
-	w.all = append(w.all, c)
-	// which half must serve it?
-	inA := w.wantOnlineA()
+	// which half must serve it? In IOModMixed: the blocking half while fewer than MaxBlockingOnline
+	// (1) connections are online there. The expectation is taken from fresh observations, and the
+	// dispatch is judged only when they leave no room: the mux's counter equals the number of
+	// blocking-half connections the peers see verifiably open, none is undecidable or freshly closed.
+	judge, inA := true, 0
 	switch w.c.Cfg.Mode {
 	case "blocking":
 		c.half = "A"
 	case "nonblocking":
 		c.half = "B"
 	default:
+		v := w.observe()
+		inA = v.mustA
 		c.half = "B"
 		if inA == 0 {
 			c.half = "A"
 		}
+		if lm := w.engine.VerifListenerMux(); lm == nil || lm.VerifOnlineA() != v.mustA || v.uncA > 0 || w.pendingClosedA > 0 {
+			judge = false
+			w.res.count("dispatch_not_judged", 1)
+		}
 	}
+	w.all = append(w.all, c)
 	n := w.nOpens()
 	w.ln.ch <- srv
 	if !WaitFor(w.caps.Step, func() bool { return w.nOpens() > n }) {
@@ -680,6 +810,9 @@ func (w *world) open(id int, filler bool) {
 		got = "A"
 	}
 	w.logf("open c%d -> half %s (expected %s)", id, got, c.half)
+	if got != c.half && !judge {
+		c.half = got
+	}
 	if got != c.half {
 		w.obs("c10", "mixed-dispatch-wrong-half want="+c.half+" got="+got,
 			"connection c%d was accepted while %d connection(s) were online in the blocking half (MaxBlockingOnline 1): it must be served by half %s, it is served by half %s (A: goroutine per connection, B: poller)",
@@ -1245,6 +1378,13 @@ func (w *world) doWS(c *conn, kind string) {
 
 func (w *world) closeCli(c *conn) {
 	if c.cliOpen {
+		if peek(c) != "end" {
+			// the engine still has to notice this one
+			w.pendingClosed++
+			if c.half == "A" {
+				w.pendingClosedA++
+			}
+		}
 		_ = c.cli.Close()
 		c.cliOpen = false
 	}
@@ -1265,45 +1405,14 @@ func (w *world) doPeer(c *conn, kind string) {
 			return
 		}
 		// The server reads the end of the stream: it has nothing more to answer and is expected to
-		// close, which the peer sees as the end of its own stream. The wait ends early when the engine
-		// has dropped the connection from its table (its reader is done with it) and the peer still
-		// has not seen the end for a whole observation window: then nobody is left to close it.
-		c.open = false // from here on the engine must not count it
-		want := w.wantOnline()
-		ended := w.readToEnd(c, w.caps.Quiet)
-		streak := 0
-		tick := time.NewTicker(w.window() / 4)
-		defer tick.Stop()
-		for {
-			select {
-			case ok := <-ended:
-				if ok {
-					w.peerSawEnd(c)
-				} else {
-					w.obs("other", "half-closed-connection-never-closed"+qual(c), "c%d: the peer shut down its sending direction; it has not seen the end of the stream for %v", c.id, w.caps.Quiet)
-					w.closeCli(c)
-				}
-				return
-			case <-tick.C:
-				atomic.AddInt64(&ParkedNominal, int64(w.window()/4))
-				if w.engine.VerifOnline() == want {
-					streak++
-				} else {
-					streak = 0
-				}
-				if streak >= 5 {
-					_ = c.cli.SetReadDeadline(time.Now())
-					if ok := <-ended; ok || w.probeEnd(c) {
-						w.peerSawEnd(c)
-						return
-					}
-					w.obs("other", "half-closed-connection-never-closed"+qual(c), "c%d: the peer shut down its sending direction; the engine dropped the connection from its table (Online() = %d) but did not close it: the peer never sees the end of the stream", c.id, want)
-					w.res.count("half_closed_never_closed", 1)
-					w.closeCli(c)
-					return
-				}
-			}
+		// close, which the peer sees as the end of its own stream. Until the peer has seen it the
+		// connection is "closed or closing": either count is acceptable (observe: undecidable).
+		c.halfClosed = true
+		if w.expectEnd(c, "the peer shut down its sending direction", "other", "half-closed-connection-never-closed"+qual(c), false) {
+			return
 		}
+		w.res.count("half_closed_never_closed", 1)
+		w.closeCli(c)
 	}
 }
 
